@@ -123,9 +123,9 @@ Inductive mverdict := MOk (checked : nat) | MBadAt (index : nat) (why : nat) | M
 Definition is_nil {A} (l : list A) : bool := match l with [] => true | _ => false end.
 
 (* [kp] = also check the keypad mode and the keypad control *)
-Definition check_op (kp : bool) (colon rgb8 cshape : bool) (init : mstate) (s : ostate) (o : mop)
-           (bytes : list Z) (value : option Z) : option ostate * nat :=
-  let v' := vt_run_bytes bytes (os_vt s) in
+(* [v'] = the screen after the operation's output, [silent] = it wrote nothing *)
+Definition check_op_v (kp : bool) (colon rgb8 cshape : bool) (init : mstate) (s : ostate) (o : mop)
+           (v' : vt) (silent : bool) (value : option Z) : option ostate * nat :=
   let eq := if kp then ms_eqb else ms_eqb_nokp in
   match o with
   | OSet c x =>
@@ -148,7 +148,7 @@ Definition check_op (kp : bool) (colon rgb8 cshape : bool) (init : mstate) (s : 
                 | None, _ => true
                 | Some _, None => false
                 end in
-      if ok && is_nil bytes then (Some s, 0%nat) else (None, 2%nat)
+      if ok && silent then (Some s, 0%nat) else (None, 2%nat)
   | OSetpen p | OChpen p =>
       if negb (pen_in_rangeb p) then (None, 0%nat)
       else
@@ -172,6 +172,10 @@ Definition check_op (kp : bool) (colon rgb8 cshape : bool) (init : mstate) (s : 
       then (Some (mkOs v' l' (os_pen s) (os_paused s) (os_stopped s)), 0%nat) else (None, 7%nat)
   end.
 
+Definition check_op (kp : bool) (colon rgb8 cshape : bool) (init : mstate) (s : ostate) (o : mop)
+           (bytes : list Z) (value : option Z) : option ostate * nat :=
+  check_op_v kp colon rgb8 cshape init s o (vt_run_bytes bytes (os_vt s)) (is_nil bytes) value.
+
 (* histories of the property: settings, pen changes and pause/resume cycles, then teardown
    and/or destruction and nothing after *)
 Fixpoint oracle_modes (kp : bool) (colon rgb8 cshape : bool) (init : mstate) (i : nat) (s : ostate)
@@ -191,3 +195,23 @@ Fixpoint oracle_modes (kp : bool) (colon rgb8 cshape : bool) (init : mstate) (i 
 (* does the history switch the application keypad on?  (trigger class of the known finding) *)
 Definition sets_keypad_on (os : list mop) : bool :=
   existsb (fun o => match o with OSet CtlKeypadApp v => negb (v =? 0) | OSetup _ => true | _ => false end) os.
+
+(* ---- the same walk with the MODEL producing the output (token level): the statement of the
+   C12 theorems is that this never answers MBadAt, whatever the history *)
+Fixpoint hist_check (kp : bool) (colon rgb8 cshape : bool) (init : mstate) (i : nat) (t : term) (s : ostate)
+         (ops : list mop) : mverdict :=
+  match ops with
+  | [] => MOk i
+  | o :: rest =>
+      if os_stopped s && negb (match o with ODestroy | OGet _ => true | _ => false end) then MOutOfRange i
+      else
+        match mode_step t o with
+        | None => MBadAt i 99
+        | Some (t', ts, value) =>
+            match check_op_v kp colon rgb8 cshape init s o (vt_run ts (os_vt s)) (is_nil ts) value with
+            | (Some s', _) => hist_check kp colon rgb8 cshape init (S i) t' s' rest
+            | (None, O) => MOutOfRange i
+            | (None, why) => MBadAt i why
+            end
+        end
+  end.
